@@ -457,6 +457,9 @@ func evalPlanner(c PCase) (problems []string, n int) {
 			if reBareAlter.MatchString(r) {
 				bad("reverse statement alters nothing: %q (forward: %s)", r, ch.Cmd)
 			}
+			if reNoParts.MatchString(r) {
+				bad("reverse statement declares an index without columns: %q (forward: %s)", r, ch.Cmd)
+			}
 			if n := alterClauses(r); n > 0 {
 				rk += n
 			} else {
@@ -469,6 +472,8 @@ func evalPlanner(c PCase) (problems []string, n int) {
 	}
 	return problems, len(plan.Changes)
 }
+
+var reNoParts = regexp.MustCompile("(?i)\\b(INDEX|KEY)\\s+(`[^`]+`|\"[^\"]+\")\\s*\\(\\s*\\)")
 
 var reBareAlter = regexp.MustCompile("(?is)^\\s*ALTER\\s+TABLE\\s+(`[^`]+`|\"[^\"]+\"|\\S+)(\\.(`[^`]+`|\"[^\"]+\"))?\\s*;?\\s*$")
 
